@@ -152,6 +152,10 @@ class SField:
     def sym_getattr(self, run, attr):
         if attr in ("grid", "data", "label"):
             return getattr(self, attr)
+        if attr in ("average", "integral", "magnitude"):
+            # py-pde: volume-weighted quantities of the field - uninterpreted, NOT the plain mean / sum of the data array
+            run.trust(f"A-PDE: ScalarField.{attr} is a cell-volume weighted quantity (uninterpreted; differs from data.mean() on non-uniform cell volumes)")
+            return z3.Real(f"field_{attr}")
         return _MISSING
 
     def sym_isinstance(self, run, t):
